@@ -267,6 +267,33 @@ def body(PROP, plan):
         spans = split_traces(evs)
         if len(spans) != len(behs):
             raise V.Infra("driver recorded %d traces for %d behaviours" % (len(spans), len(behs)))
+        # A replay that did not come to rest is not judged. Whether the scheduler of the harness reaches a rest position depends on
+        # the timing of the node's goroutines on a loaded machine: such behaviours are replayed again (one process, nothing else
+        # running in it), and the new trace - judged like any other - takes the place of the unfinished one.
+        retried = 0
+        for attempt in (1, 2):
+            bad = [k for k, (s0, e0) in enumerate(spans)
+                   if any(x["ev"] == "end" and not x["quiet"] and not x.get("loop") for x in evs[s0:e0])]
+            if not bad or len(bad) > max(50, len(behs) // 100):
+                break
+            rf = run_shards(drv, [behs[k] for k in bad], sc, "retry%d" % attempt)
+            revs = V.read_ndjson(rf)
+            rspans = split_traces(revs)
+            if len(rspans) != len(bad):
+                break
+            new_evs, last = [], 0
+            for k, (rs, re_) in zip(bad, rspans):
+                s0, e0 = spans[k]
+                new_evs += evs[last:s0] + revs[rs:re_]
+                last = e0
+            new_evs += evs[last:]
+            evs = new_evs
+            spans = split_traces(evs)
+            retried += len(bad)
+        if retried:
+            tf = sc.path("trace-merged.ndjson")
+            V.write_ndjson(tf, evs)
+            V.log("[replay] %d replays that had not come to rest were replayed again" % retried)
 
         # (C) judge
         info = V.validate_traces(MON, MONCFG, tf, sc)
